@@ -109,7 +109,7 @@ Definition cid_union (a b : list bytes) : list bytes := fold_left (fun acc c => 
 
 (* known_cid: the connection ID of the session that the datagram is addressed to *)
 Definition known_cid (s : qsession) (p : packet) (long : bool) (dcid : bytes) : option bytes :=
-  if long then (if mem_bytes dcid (qs_client_cids s) || mem_bytes dcid (qs_server_cids s) then Some dcid else None)
+  if long then (if (0 <? len dcid) && (mem_bytes dcid (qs_client_cids s) || mem_bytes dcid (qs_server_cids s)) then Some dcid else None)
   else let from_server := ip_eqb (p_src p) (qs_server_ip s) && (p_sport p =? qs_server_port s) in
        find (fun cid => is_prefix cid (slice_from (p_data p) 1)) (scan_order (if from_server then qs_client_cids s else qs_server_cids s)).
 
